@@ -413,13 +413,17 @@ func (st *State) unmodelled(key string, sig *types.Signature, args []Value, resT
 			_, es := splitArraySort(sort)
 			st.heapSet(name, sort, Store(m, SlRef(a.Tm), e.fresh("hav", es)))
 		case *types.Pointer:
-			if stt, ok := types.Unalias(t.Elem()).Underlying().(*types.Struct); ok {
-				for i := 0; i < stt.NumFields(); i++ {
-					name, sort := e.fieldHeapName(t.Elem(), i)
-					h := st.heapGet(name, sort)
-					_, fs := splitArraySort(sort)
-					st.heapSet(name, sort, Store(h, a.Tm, e.fresh("hav", fs)))
+			st.havocPointee(t.Elem(), a.Tm)
+		case *types.Interface:
+			// an interface wrapping a pointer (e.g. Unmarshal(data, &conf)): the pointee is written by the callee
+			if id, ok := isIntLit(IfType(a.Tm)); ok {
+				if DT := e.typeByID[int(id)]; DT != nil {
+					if pt, ok := types.Unalias(DT).Underlying().(*types.Pointer); ok {
+						st.havocPointee(pt.Elem(), IfVal(a.Tm))
+					}
 				}
+			} else if a.Tm.S != nilIface.S {
+				e.assumes["unmodelled calls that receive an interface value of unknown dynamic type are assumed not to write memory the verified code reads"] = true
 			}
 		}
 	}
@@ -427,6 +431,31 @@ func (st *State) unmodelled(key string, sig *types.Signature, args []Value, resT
 		return Value{}
 	}
 	return st.symbolicValue("ext_"+shortKey(key), resT)
+}
+
+// havocPointee: an unmodelled callee may write the object a pointer argument designates (one level)
+func (st *State) havocPointee(T types.Type, ref Term) {
+	e := st.eng()
+	if stt, ok := types.Unalias(T).Underlying().(*types.Struct); ok {
+		for i := 0; i < stt.NumFields(); i++ {
+			name, sort := e.fieldHeapName(T, i)
+			h := st.heapGet(name, sort)
+			_, fs := splitArraySort(sort)
+			nv := e.fresh("hav", fs)
+			st.assume(e.typeInv(stt.Field(i).Type(), nv))
+			st.heapSet(name, sort, Store(h, ref, nv))
+		}
+		return
+	}
+	if _, isArr := types.Unalias(T).Underlying().(*types.Array); isArr {
+		return
+	}
+	name, sort := e.boxName(T)
+	h := st.heapGet(name, sort)
+	_, fs := splitArraySort(sort)
+	nv := e.fresh("hav", fs)
+	st.assume(e.typeInv(T, nv))
+	st.heapSet(name, sort, Store(h, ref, nv))
 }
 
 // ---------------------------------------------------------------------------------------------
@@ -489,6 +518,12 @@ func (st *State) applySpec(spec *FuncSpec, sig *types.Signature, args []Value, p
 		env := mkEnv(pre)
 		st.havocLocation(env, m)
 	}
+	// the callee may allocate: the watermark grows (isfresh(result) means above the pre-call watermark)
+	{
+		na := e.fresh("alloc", SInt)
+		st.assume(Ge(na, st.alloc))
+		st.alloc = na
+	}
 	// results
 	var res []Value
 	rs := sig.Results()
@@ -515,7 +550,21 @@ func (st *State) applySpec(spec *FuncSpec, sig *types.Signature, args []Value, p
 		st.assumeAll(env.defs)
 		st.assume(t)
 	}
-	_ = e
+	// vacuity guard: the assumed postconditions must not contradict the call context
+	if u := st.u; u.houdini == nil {
+		ck := spec.Key
+		if u.vacChecked == nil {
+			u.vacChecked = map[string]bool{}
+		}
+		if !u.vacChecked[ck] || e.tier == "thorough" {
+			u.vacChecked[ck] = true
+			if e.multiQueryRaw(st.pcSlice(), []Term{TFalse})[0] {
+				if !e.multiQueryRaw(pre.pcSlice(), []Term{TFalse})[0] {
+					u.errs = append(u.errs, fmt.Sprintf("vacuity: the postconditions assumed for %s contradict the call context at %s", spec.Key, e.ld.posText(pos)))
+				}
+			}
+		}
+	}
 	return resultValue(rs, res)
 }
 
